@@ -28,6 +28,9 @@ def obs_oracle(cfg, batches):
             fails.append(f"call {k}: batch parts have different lengths")
             continue
         for r in range(len(p)):
+            vals = list(p[r]) + list(v[r]) + [e[r][0]]
+            if any(x != x for x in vals):
+                fails.append(f"call {k}, position {r}: the batch row holds values that are not numbers ({vals}): not a row of the table"); continue
             js = {round((x - 1.0 - 1000.0 * c) / 10.0, 6) for c, x in enumerate(p[r])} | {round((x - 2.0 - 1000.0 * c) / 10.0, 6) for c, x in enumerate(v[r])} | {round((e[r][0] - 3.0) / 10.0, 6)}
             if len(js) != 1 or not (0 <= min(js) < cfg["n"]) or min(js) != int(min(js)):
                 fails.append(f"call {k}, position {r}: input/value/parameter come from rows {sorted(js)}")
@@ -39,7 +42,9 @@ def obs_case(cid, cfg, batches, stores):
     e = -(-n // b)
     perms = [stores[k] for k in range(0, cfg["calls"], e)]
     tab = lambda off: clist([10 * j + off for j in range(n)], cz)
-    ob = clist(batches, lambda t: f"({clist([int(r[0]) for r in t[0]], cz)}, {clist([int(r[0]) for r in t[1]], cz)}, {clist([int(r[0]) for r in t[2]], cz)})")
+    # a value that is not a number (or not an entry of the table) is written as -1: no row of the table holds it
+    toz = lambda x: int(x) if (x == x and abs(x) < 1e15) else -1
+    ob = clist(batches, lambda t: f"({clist([toz(r[0]) for r in t[0]], cz)}, {clist([toz(r[0]) for r in t[1]], cz)}, {clist([toz(r[0]) for r in t[2]], cz)})")
     return f"ObsCase {cnat(cid)} {cz(b)} {tab(1)} {tab(2)} {tab(3)} {clist(perms, lambda p: clist(p, cnat))} {ob}"
 
 
